@@ -71,6 +71,7 @@ OneOfs == { OneOf(<< Dog, Cat >>, d, << >>) : d \in {"", "kind"} }
                                                                    << DM("d", "VarDog"), DM("c", "VarCat"), DM("b", "VarBird"), DM("b2", "VarBird") >> } }
 Nested == { Obj(<< P("inner", x, r), P("list", Arr(x), FALSE) >>, [addlK |-> ""]) : x \in { Ref("PoolA"), Ref("PoolC"), MemberB }, r \in BOOLEAN }
           \cup { Arr(Ref("PoolA")), Arr(MemberB), Arr(Arr(Sc("int64", FALSE))) }
+          \cup { Obj(<< P("grid", Arr(Arr(Sc("int64", FALSE))), r), P("rows", Arr(Arr(Sc("string", FALSE))), FALSE) >>, [addlK |-> ""]) : r \in BOOLEAN }
 \* properties that are a $ref to a nullable component (PoolNullStr : nullable string, PoolNullObj : nullable object)
 NullRefs == { Obj(<< P("owner", x, r), P("id", Sc("int64", FALSE), TRUE) >>, [addlK |-> ""]) : x \in { Ref("PoolNullStr"), Ref("PoolNullObj") }, r \in BOOLEAN }
             \cup { Arr(Ref("PoolNullStr")), Arr(Ref("PoolNullObj")) }
